@@ -679,7 +679,7 @@ var descLayouts = func() []layout {
 // ---------------------------------------------------------------- the plan
 
 type kase struct {
-	kind string // probe table refuse descriptor every lists trans pinned reuse retained pairs zonenames zonereject seeded longgap
+	kind string // probe table grammar refuse descriptor every lists trans pinned reuse retained pairs zonenames zonereject seeded longgap
 	a, b int
 	zone string
 	tr   trans
@@ -759,6 +759,7 @@ func plan() ([]kase, []string) {
 			for si := range startTokens(fi) {
 				ks = append(ks, kase{kind: "table", a: li*8 + fi, b: si})
 			}
+			ks = append(ks, kase{kind: "grammar", a: li*8 + fi})
 			for j := 0; j < mon.Pick(4, 40); j++ {
 				ks = append(ks, kase{kind: "lists", a: li*8 + fi, b: j})
 			}
@@ -823,12 +824,13 @@ func TestCheck(t *testing.T) {
 	rec = mon.Open("C04")
 	defer rec.Close()
 	hangKnown = mon.Resume() > 0 && mon.Only() < 0
-	rec.Note("rule", "Parse: for every option-set layout (standard/5, seconds/6, seconds-optional/6 and /5, dow-optional/5 and /4, seconds+dow-optional/6 and /5, both without descriptors) and every field it contains, every single term is enumerated: every start token (*, ?, each value, each month/day name in three casings) alone, with every step 0..range+2,100,1000, and combined with every end token and every step (inverted ranges and zero steps are expected refusals); plus seeded lists, descriptors, TZ=/CRON_TZ= prefixes and the refusal table (field counts, min-1/max+1 in every position, non-numeric tokens, unknown names/descriptors/zones, descriptors when disabled). A parse case is one (layout, expression); enumerated without repetition. Its six value sets and the two unrestricted-day flags are compared with a reference parser written from doc.go. "+
+	rec.Note("rule", "Parse: for every option-set layout (standard/5, seconds/6, seconds-optional/6 and /5, dow-optional/5 and /4, seconds+dow-optional/6 and /5, both without descriptors) and every field it contains, every single term is enumerated: every start token (*, ?, each value, each month/day name in three casings) alone, with every step 0..range+2,100,1000, and combined with every end token and every step (inverted ranges and zero steps are expected refusals); a token grammar: every position of a term (single value, range start/end with and without step, value before a step, step of * / ? / value / range / named range, list first/middle/last) x token classes (valid, out-of-range, negative, empty, letters, a name of this field in four casings, a name of the other named field, a name in a field without names, *, ?, @x, signed, hex/octal/underscore/exponent, zero-padded, unicode digits), the reference deciding accept / refuse / no documented meaning (names are values, never steps); plus seeded lists, descriptors, TZ=/CRON_TZ= prefixes and the refusal table (field counts, min-1/max+1 in every position, non-numeric tokens, unknown names/descriptors/zones, descriptors when disabled). A parse case is one (layout, expression); enumerated without repetition. Its six value sets and the two unrestricted-day flags are compared with a reference parser written from doc.go. "+
 		"Next: one case is (option set, expression, zone, start instant); the expected answer is the earliest matching whole second found by an independent search over the zone's constant-offset periods (Time.ZoneBounds + integer calendar arithmetic on offset-shifted seconds). For every zone of the tier and every offset change 1968-2037: start instants {-2d,-1d,-1h,-1s,0,+1s,+1h} around it and one seeded instant, each with seeded schedules (well-known, built from the wall-clock readings around the change, or from the grammar with sparse day fields); for every transition that removes or repeats local 00:00 or shifts by a non-whole hour additionally schedules with restricted day fields pinned ON the transition day and the three days after it (noon, each minute 00:00-00:29, the readings around the switch), started 1-5 days earlier; SCHEDULE RE-USE: one parsed Schedule object (prefix-less expression, descriptor, @every, some with a TZ prefix as control) answers eight questions in a row whose instants live in different locations (UTC, fixed +05:30 / -03:45, DST zones, time.Local) and then the first question again, every answer judged against the reference for that instant's zone exactly like a fresh parse, the schedule value compared before/after (observed), then a fresh object is asked from 2-4 goroutines at once (this part also runs in an extra -race build that executes only the re-use cases); RETAINED SCHEDULES: every descriptor (bare and with a zone prefix) and six field expressions with seeded unique values are parsed and kept, each answering three questions (judged) right after its parse; then the same texts are parsed again with other zone prefixes and by other parsers (the seven option sets plus descriptor-only, minute|hour, dom|month|dow-optional, seconds-first without dow), each judged on its own; finally every kept schedule is asked its questions again: the answers must not have moved. SAME TEXT, DIFFERENT PARSERS: for every ordered pair (A,B) of the eleven option sets a fresh text (field count accepted by A or by B, seeded unique values) is parsed with A then with B; B's acceptance/refusal, sets and Next are judged for (B, text), A's schedule must still answer as before. ZONE NAMES: every name (aliases included) of the zone database time.LoadLocation resolves, with both TZ= and CRON_TZ=, must be accepted and Next must agree with the reference read in time.LoadLocation(name) at three instants; a family of doubtful names (every 1-3 character string over the characters of the two prefixes, doubled prefixes, names with trailing garbage, truncated names, the empty name) must be accepted iff time.LoadLocation accepts the exact text between the first '=' and the first space; plus seeded (zone, instant, schedule) triples, Feb-29 / impossible-date schedules for the five-year horizon, descriptors and @every. Non-trivial = the answer is not simply the next second (the search had to skip at least one second) or no answer exists; distinct = distinct (options, expression, zone, instant).")
 	rec.Note("require", []string{"parse.ok.sets_equal", "parse.refused.wrong-field-count", "parse.refused.out-of-range", "parse.refused.non-numeric", "parse.refused.inverted-range",
 		"parse.refused.zero-step", "parse.refused.unknown-name", "parse.refused.unknown-descriptor", "parse.refused.unknown-zone", "parse.refused.descriptor-disabled",
 		"next.search_crosses.ordinary", "next.search_crosses.midnight-gap", "next.search_crosses.non-hour-shift", "next.search_crosses.midnight-repeat",
 		"next.search_crosses.off-hour-boundary", "next.search_crosses.multi-hour-shift", "next.skipped_day_probe", "reference.self_checked_by_brute_force", "next.pinned_on_transition_day", "reuse.questions_judged", "reuse.concurrent_questions", "reuse.first_question_repeated", "reuse.every_questions",
+		"grammar.judged.documented_accept", "grammar.judged.documented_refusal", "grammar.judged.name_of_this_field_as_step", "parse.refused.name-as-step",
 		"retained.schedules_kept", "retained.answers_rechecked", "retained.later_parses_of_the_same_text", "pairs.ordered_pairs", "pairs.A_accepts_B_must_refuse",
 		"pairs.A_refuses_B_must_accept", "pairs.both_accept_with_different_meanings",
 		"zone_names.database_names_checked", "zone_names.database_names_starting_with_a_prefix_character", "zone_names.next_checked_where_offset_differs_from_UTC",
@@ -863,6 +865,8 @@ func TestCheck(t *testing.T) {
 			runPinned(idx, k)
 		case "reuse":
 			runReuse(idx, k, zones)
+		case "grammar":
+			runGrammar(idx, k)
 		case "retained":
 			runRetained(idx, k, zones)
 		case "pairs":
@@ -2006,6 +2010,135 @@ func runParserPairs(idx int, k kase, zones []string) {
 		}
 	}
 	rec.Case(idx, fmt.Sprintf("pairs %d seed%d", k.a, mon.Seed()), true)
+}
+
+// ---------------------------------------------------------------- token grammar
+
+type tokClass struct {
+	class string
+	toks  []string
+}
+
+// tokenClasses: what may stand at a position of a term of field f.
+func tokenClasses(fi int) []tokClass {
+	f := &fieldDefs[fi]
+	mid := (f.min + f.max) / 2
+	out := []tokClass{
+		{"valid-number", []string{fmt.Sprint(f.min), fmt.Sprint(f.max), fmt.Sprint(mid), "2", "3"}},
+		{"out-of-range-number", []string{fmt.Sprint(f.max + 1), "99", "100", "65"}},
+		{"negative", []string{"-1", "-5"}},
+		{"empty", []string{""}},
+		{"letters", []string{"x", "abc", "L", "Q", "sunday", "Febr"}},
+		{"star", []string{"*"}},
+		{"question-mark", []string{"?"}},
+		{"descriptor-like", []string{"@x", "@daily"}},
+		{"signed", []string{"+5", "+0", "+2"}},
+		{"hex-octal-underscore", []string{"0x1", "0X2", "0o7", "0b1", "1_0", "1e1", "2.0"}},
+		{"zero-padded", []string{"08", "007", "02", "003"}},
+		{"unicode-digits", []string{"５", "٣", "२"}},
+	}
+	other := fieldDefs[fDow].names
+	if fi == fDow {
+		other = fieldDefs[fMonth].names
+	}
+	variants := func(names []string, idx ...int) []string {
+		var v []string
+		for _, i := range idx {
+			n := names[i]
+			v = append(v, n, strings.ToUpper(n), strings.ToUpper(n[:1])+n[1:], n[:1]+strings.ToUpper(n[1:]))
+		}
+		return v
+	}
+	if f.names != nil {
+		out = append(out, tokClass{"name-of-this-field", variants(f.names, 1, 2, 3, len(f.names)-1)})
+		out = append(out, tokClass{"name-of-the-other-named-field", variants(other, 1, 2, 4)})
+	} else {
+		out = append(out, tokClass{"name-in-a-field-without-names", append(variants(fieldDefs[fMonth].names, 1, 2), variants(fieldDefs[fDow].names, 1, 3)...)})
+	}
+	return out
+}
+
+type termPos struct {
+	pos   string
+	build func(tok string) string
+}
+
+// termPositions: every position of a term of field f, the rest of the term well-formed.
+func termPositions(fi int) []termPos {
+	f := &fieldDefs[fi]
+	lo, hi := fmt.Sprint(f.min), fmt.Sprint(f.max)
+	out := []termPos{
+		{"single-value", func(t string) string { return t }},
+		{"range-start", func(t string) string { return t + "-" + hi }},
+		{"range-end", func(t string) string { return lo + "-" + t }},
+		{"range-start-with-step", func(t string) string { return t + "-" + hi + "/2" }},
+		{"range-end-with-step", func(t string) string { return lo + "-" + t + "/2" }},
+		{"value-before-step", func(t string) string { return t + "/2" }},
+		{"step-of-star", func(t string) string { return "*/" + t }},
+		{"step-of-value", func(t string) string { return lo + "/" + t }},
+		{"step-of-range", func(t string) string { return lo + "-" + hi + "/" + t }},
+		{"list-first", func(t string) string { return t + "," + lo }},
+		{"list-last", func(t string) string { return lo + "," + t }},
+		{"list-middle", func(t string) string { return lo + "," + t + "," + hi }},
+	}
+	if f.day {
+		out = append(out, termPos{"step-of-question-mark", func(t string) string { return "?/" + t }})
+	}
+	if f.names != nil {
+		first, last := f.names[0], f.names[len(f.names)-1]
+		out = append(out,
+			termPos{"step-of-named-range", func(t string) string { return first + "-" + last + "/" + t }},
+			termPos{"step-of-named-value", func(t string) string { return strings.ToUpper(f.names[1]) + "/" + t }},
+			termPos{"range-end-after-name", func(t string) string { return first + "-" + t }},
+			termPos{"range-start-before-name", func(t string) string { return t + "-" + last }})
+	}
+	return out
+}
+
+// runGrammar: every position of a term x every token class, for one field of
+// one layout. The reference decides whether the documentation accepts, refuses
+// or gives no meaning; in the last case kit's verdict is only counted.
+func runGrammar(idx int, k kase) {
+	l := layouts[k.a/8]
+	fi := k.a % 8
+	n, rot := 0, 0
+	for _, tp := range termPositions(fi) {
+		for _, tc := range tokenClasses(fi) {
+			for _, tok := range tc.toks {
+				term := tp.build(tok)
+				if term == "" || strings.ContainsAny(term, " \t") {
+					continue
+				}
+				rot++
+				spec := specWith(l, fi, term, rot)
+				_, oc, why := refParse(*l.o, spec)
+				n++
+				switch oc {
+				case ocOK:
+					rec.Count("grammar.judged.documented_accept", 1)
+				case ocRefuse:
+					rec.Count("grammar.judged.documented_refusal", 1)
+					if strings.HasPrefix(tp.pos, "step-") && tc.class == "name-of-this-field" {
+						rec.Count("grammar.judged.name_of_this_field_as_step", 1)
+					}
+					_ = why
+				case ocUnspec:
+					_, err, pan := kitParse(l.o, spec, false)
+					switch {
+					case pan != nil:
+						rec.Count("grammar.not_judged.kit_panics(C07's business)."+tc.class+"@"+tp.pos, 1)
+					case err == nil:
+						rec.Count("grammar.not_judged.kit_accepts."+tc.class+"@"+tp.pos, 1)
+					default:
+						rec.Count("grammar.not_judged.kit_refuses", 1)
+					}
+				}
+				checkParse(idx, l.o, spec)
+			}
+		}
+	}
+	rec.Count("grammar.terms", n)
+	rec.Bulk(idx, int64(n), true)
 }
 
 func runSeeded(idx int, k kase) {
